@@ -164,6 +164,28 @@ def rwIfCond (q : Quirks) (lt gt : List Ty) (c : Expr R) : Expr R :=
   | .bin .ne (.lit (.int 0)) x => if typeOf q.optimisticTypes lt gt x == .int then x else c
   | _ => c
 
+/-- cond_get_exp: `#if` arithmetic in 32-bit `int` -/
+def ppEval32 : Expr R → Option Int
+  | .lit (.int n) => some (wrap32 n)
+  | .un .neg a => do some (wrap32 (-(← ppEval32 a)))
+  | .un .not a => do some (if (← ppEval32 a) == 0 then 1 else 0)
+  | .un .compl a => do some (wrap32 (-(← ppEval32 a) - 1))
+  | .bin op a b => do
+    let x ← ppEval32 a
+    let y ← ppEval32 b
+    match op with
+    | .add => some (wrap32 (x + y))
+    | .sub => some (wrap32 (x - y))
+    | .mul => some (wrap32 (x * y))
+    | .lt => some (if x < y then 1 else 0)
+    | .le => some (if x ≤ y then 1 else 0)
+    | .gt => some (if x > y then 1 else 0)
+    | .ge => some (if x ≥ y then 1 else 0)
+    | .eq => some (if x == y then 1 else 0)
+    | .ne => some (if x != y then 1 else 0)
+    | _ => none
+  | _ => none
+
 mutual
   /-- the whole front end on an expression: children first, then the root action (fuel bounds the depth) -/
   def rwE (F : FloatOps R) (q : Quirks) (lt gt : List Ty) : Nat → Expr R → Expr R
@@ -185,7 +207,13 @@ mutual
       | .arr es => .arr (rwL F q lt gt n es)
       | .map kvs => .map (rwP F q lt gt n kvs)
       | .call f args => .call f (rwL F q lt gt n args)
-      | .efun f args => .efun f (rwL F q lt gt n args)
+      | .efun f args =>
+        -- `(efun #if e)`: the value the preprocessor computed for the condition of an `#if`
+        match f, args with
+        | "#if", [c] => (match (if q.ppIf32 then ppEval32 c else none) with
+                          | some v => .lit (.int v)
+                          | none => .efun f (rwL F q lt gt n args))
+        | _, _ => .efun f (rwL F q lt gt n args)
       | other => other
   def rwL (F : FloatOps R) (q : Quirks) (lt gt : List Ty) : Nat → List (Expr R) → List (Expr R)
     | 0, es => es
@@ -201,7 +229,13 @@ mutual
       match l with
       | .idx lv i => .idx (rwLV F q lt gt n lv) (rwE F q lt gt n i)
       | .ridx lv i => .ridx (rwLV F q lt gt n lv) (rwE F q lt gt n i)
-      | .rng fr tr lv i j => .rng fr tr (rwLV F q lt gt n lv) (rwE F q lt gt n i) (rwE F q lt gt n j)
+      | .rng fr tr lv i j =>
+        let j' := rwE F q lt gt n j
+        -- parsed as an rvalue first: `[i..<k]`, k constant <= 1, became `[i..]` and is re-expanded to `[i..<1]`
+        let j'' := match tr, j' with
+          | true, .lit (.int k) => if q.lvRangeConstRev && decide (k ≤ 1) then .lit (.int 1) else j'
+          | _, _ => j'
+        .rng fr tr (rwLV F q lt gt n lv) (rwE F q lt gt n i) j''
       | other => other
 end
 
@@ -335,7 +369,7 @@ def modelSem (F : FloatOps R) (q : Quirks) : Sem R where
   index := LpcOps.index F
   rindex := LpcOps.rindex
   range := LpcOps.range q Spec.oldRange
-  extract := LpcOps.extract Spec.oldRange
+  extract := LpcOps.extract q Spec.oldRange
   lvGet := LpcOps.lvGet F
   lvSet := LpcOps.lvSet F q
   storeRange := LpcOps.storeRange
